@@ -102,6 +102,17 @@ FOCUS[10] = ("- THIS ROUND'S FOCUS: lifecycle and call order. At least one of yo
              "that step raises or returns early.")
 
 
+FOCUS[11] = ("- THIS ROUND'S FOCUS: error paths and validation. At least one of your two changes must live in code that decides whether to "
+             "REFUSE something or what to do when something is MISSING: the order of validation checks relative to each other and to the first "
+             "mutation; a check moved, merged, negated, widened or narrowed (`<` vs `<=`, `or` vs `and`, `is None` vs falsy, `isinstance` of a "
+             "base vs derived class, `in dict` vs `dict.get`); an exception type or class hierarchy changed (`ValueError` vs `KeyError` vs a new "
+             "custom exception, `except Exception` swallowing more than before, `raise` turned into a warning/log/return value); a NaN / None / "
+             "empty-container guard that now also swallows a legitimate value or lets an illegitimate one through; a `try/except/finally` that "
+             "changes which statements run after a failure; default fall-backs chosen when data are missing (previous value, zero, skip) so "
+             "that the result is silently different rather than an error. The interesting cases are those where the VALID path is also "
+             "affected for some inputs, or where the refusal happens but leaves something behind.")
+
+
 def rnd_of(i):
     m = re.search(r'-r(\d+)$', i)
     return int(m.group(1)) if m else 1
